@@ -19,7 +19,7 @@
 (* s -> s' with an enabling predicate, so that the state machine            *)
 (* (MC_WcMtime), the behaviour generator and the trace judge                *)
 (* (Trace_WcMtime) share the very same definitions.                         *)
-EXTENDS Naturals, Sequences
+EXTENDS Naturals, Integers, Sequences
 
 (* the guard under test; "le" is the seeded design bug of the negative cfg  *)
 Guard(recorded, own, variant) ==
@@ -62,6 +62,12 @@ DoUserEdit(s) ==
             !.must = IF s.cmd = "idle" THEN TRUE ELSE @,
             !.noreq = IF s.cmd # "idle" THEN TRUE ELSE @]
 
+(* "restore an older copy" (cp -p, mv of an older copy, rsync -t, tar x, backup restore):  *)
+(* different content of the same size whose mtime is k ticks OLDER than the recorded one     *)
+CanRestoreOld(s, k) == s.tracked /\ s.cmd = "idle"
+DoRestoreOld(s, k) ==
+  [s EXCEPT !.dm = s.rm - k, !.dc = s.dc + 1, !.must = TRUE]
+
 (* LockedLocalWorkingCopy::finish: the state is written only when dirty     *)
 Dirty(s) == s.mm # s.rm \/ s.mc # s.rc \/ s.cmd = "checkout"
 CanSaveState(s) == s.cmd \in {"checkout", "snapshot"} /\ s.done
@@ -76,7 +82,10 @@ DoBeginSnapshot(s) ==
   [s EXCEPT !.cmd = "snapshot", !.done = FALSE, !.mm = s.rm, !.mc = s.rc]
 
 (* get_updated_tree_value for the file *)
-Clean(s, variant) == s.dm = s.mm /\ Guard(s.mm, s.own, variant)
+(* FileState::is_clean compares the mtimes for EQUALITY; "clean-le" is a seeded bug        *)
+Clean(s, variant) ==
+  /\ (IF variant = "clean-le" THEN s.dm <= s.mm ELSE s.dm = s.mm)
+  /\ Guard(s.mm, s.own, variant)
 CanSnapStat(s) == s.cmd = "snapshot" /\ ~s.done
 DoSnapStat(s, variant) ==
   LET seen == IF Clean(s, variant) THEN [m |-> s.mm, c |-> s.mc] ELSE [m |-> s.dm, c |-> s.dc]
@@ -107,6 +116,8 @@ Enabled(s, a, maxClock) ==
     [] a = "SaveState" -> CanSaveState(s)
     [] a = "BeginSnapshot" -> CanBeginSnapshot(s)
     [] a = "SnapStat" -> CanSnapStat(s)
+    [] a = "RestoreOld1" -> CanRestoreOld(s, 1)
+    [] a = "RestoreOld2" -> CanRestoreOld(s, 2)
     [] OTHER -> FALSE
 Step(s, a, variant) ==
   CASE a = "Tick" -> DoTick(s)
@@ -116,5 +127,7 @@ Step(s, a, variant) ==
     [] a = "SaveState" -> DoSaveState(s)
     [] a = "BeginSnapshot" -> DoBeginSnapshot(s)
     [] a = "SnapStat" -> DoSnapStat(s, variant)
-Actions == {"Tick", "BeginCheckout", "JjWrite", "UserEdit", "SaveState", "BeginSnapshot", "SnapStat"}
+    [] a = "RestoreOld1" -> DoRestoreOld(s, 1)
+    [] a = "RestoreOld2" -> DoRestoreOld(s, 2)
+Actions == {"Tick", "BeginCheckout", "JjWrite", "UserEdit", "SaveState", "BeginSnapshot", "SnapStat", "RestoreOld1", "RestoreOld2"}
 =============================================================================
